@@ -38,7 +38,7 @@ struct Route {
 
 #[derive(Clone, Debug)]
 enum Script {
-    Reply { a: Vec<u32>, n: Vec<u32>, d: Vec<u32>, rdlen: usize, tc: bool, wrong_id: bool, rcode: u8 },
+    Reply { a: Vec<u32>, n: Vec<u32>, d: Vec<u32>, rdlen: usize, tc: bool, wrong_id: bool, rcode: u8, stray: bool },
     Garbage,
     Silent,
 }
@@ -156,12 +156,13 @@ fn script_toks(s: &Script) -> Vec<u64> {
     match s {
         Script::Garbage => vec![1],
         Script::Silent => vec![2],
-        Script::Reply { a, n, d, rdlen, tc, wrong_id, rcode } => {
+        Script::Reply { a, n, d, rdlen, tc, wrong_id, rcode, stray } => {
             let mut v = vec![3, *rcode as u64, *rdlen as u64, *tc as u64, *wrong_id as u64];
             for l in [a, n, d] {
                 v.push(l.len() as u64);
                 v.extend(l.iter().map(|&x| x as u64));
             }
+            v.push(*stray as u64);
             v
         }
     }
@@ -211,7 +212,7 @@ fn answer(st: &UpState, q: &[u8], over_tcp: bool) -> Option<Vec<u8>> {
         Script::Silent | Script::Garbage if over_tcp => build_reply(q, &[], &[], &[], 4, false, false, 0),
         Script::Silent => None,
         Script::Garbage => Some(vec![q[0], q[1], 0x81]),
-        Script::Reply { a, n, d, rdlen, tc, wrong_id, rcode } => {
+        Script::Reply { a, n, d, rdlen, tc, wrong_id, rcode, .. } => {
             build_reply(q, &a, &n, &d, rdlen, tc && !over_tcp, wrong_id && !over_tcp, rcode)
         }
     }
@@ -251,7 +252,17 @@ async fn tcp_upstream(l: TcpListener, srv: u64, st: Arc<UpState>) {
                     match if q.len() >= 12 { answer(&st, &q, true) } else { None } {
                         Some(r) => {
                             *st.tcp_sent.lock().unwrap() = Some(r.clone());
-                            let mut o = (r.len() as u16).to_be_bytes().to_vec();
+                            let mut o = vec![];
+                            if matches!(*st.script.lock().unwrap(), Script::Reply { stray: true, .. }) {
+                                // first a well-formed reply under the same id to a question that was not asked on
+                                // this connection (a late or repeated reply whose id is in use again): to be ignored
+                                let mut x = vec![q[0], q[1], 0x81, 0x80, 0, 1, 0, 1, 0, 0, 0, 0];
+                                x.extend([5, b's', b't', b'r', b'a', b'y', 7, b'i', b'n', b'v', b'a', b'l', b'i', b'd', 0, 0, 1, 0, 1]);
+                                x.extend([0xC0, 0x0C, 0, 1, 0, 1, 0, 0, 0, 60, 0, 4, 192, 0, 2, 66]);
+                                o.extend((x.len() as u16).to_be_bytes());
+                                o.extend(x);
+                            }
+                            o.extend((r.len() as u16).to_be_bytes());
                             o.extend(r);
                             if s.write_all(&o).await.is_err() {
                                 return;
@@ -352,6 +363,12 @@ async fn run_history(h: &Hist) -> Option<Toks> {
             let mut buf = vec![0u8; 65536];
             if let Ok(Ok((l, _))) = tokio::time::timeout(wait, c.recv_from(&mut buf)).await {
                 reply = Some(buf[..l].to_vec());
+            } else if st.udp_sent.lock().unwrap().is_some() || st.tcp_sent.lock().unwrap().is_some() {
+                // an upstream has answered and nothing has come back yet: on a loaded machine the
+                // service may simply not have been scheduled; give it more time before calling it silence
+                if let Ok(Ok((l, _))) = tokio::time::timeout(Duration::from_secs(3), c.recv_from(&mut buf)).await {
+                    reply = Some(buf[..l].to_vec());
+                }
             }
         }
         let t_after = t0.elapsed();
@@ -542,7 +559,7 @@ fn gen_hist(r: &mut Rng, stats: &mut Stats, thorough: bool) -> Hist {
             _ => None,
         };
         let edns = if r.chance(2, 3) || cookie.is_some() {
-            Some((*r.pick(&[512u16, 0, 1232, 4096, 700]), !steady && r.chance(1, 8), r.chance(1, 5), cookie))
+            Some((*r.pick(&[512u16, 0, 1232, 4096, 700, 4097, 8192, 16384, 65535]), !steady && r.chance(1, 8), r.chance(1, 5), cookie))
         } else {
             None
         };
@@ -558,7 +575,7 @@ fn gen_hist(r: &mut Rng, stats: &mut Stats, thorough: bool) -> Hist {
         let script = match r.below(14) {
             0 => Script::Garbage,
             1 if thorough && r.chance(1, 6) => Script::Silent,
-            2 => Script::Reply { a: vec![], n: vec![], d: vec![], rdlen: 4, tc: false, wrong_id: false, rcode: *r.pick(RCODES) },
+            2 => Script::Reply { a: vec![], n: vec![], d: vec![], rdlen: 4, tc: false, wrong_id: false, rcode: *r.pick(RCODES), stray: r.chance(1, 3) },
             _ => {
                 let ttl = |r: &mut Rng| if steady { *r.pick(&[1u32, 1, 2, 3]) } else { *r.pick(&[1u32, 1, 2, 3, 7, 8, 9, 30, 60, 600, 0, 86400]) };
                 let big = r.chance(1, 4);
@@ -566,10 +583,12 @@ fn gen_hist(r: &mut Rng, stats: &mut Stats, thorough: bool) -> Hist {
                     a: (0..r.range(1, 3)).map(|_| ttl(r).max(1)).collect(),
                     n: (0..r.below(3)).map(|_| ttl(r).max(1)).collect(),
                     d: (0..r.below(2)).map(|_| if r.chance(1, 10) { 0 } else { ttl(r).max(1) }).collect(),
-                    rdlen: if big { *r.pick(&[150usize, 200, 240]) } else { 4 },
+                    // (the larger ones make replies of 4-13k octets: beyond what the service itself advertises upstream)
+                    rdlen: if big { *r.pick(&[150usize, 200, 240, 1400, 2100]) } else { 4 },
                     tc: r.chance(1, 12),
                     wrong_id: r.chance(1, 14),
                     rcode: *r.pick(RCODES),
+                    stray: r.chance(1, 3),
                 }
             }
         };
@@ -697,7 +716,8 @@ fn parse_hist(toks: &[u64]) -> Option<Hist> {
                 for _ in 0..3 {
                     l.push(k.nums()?.into_iter().map(|x| x as u32).collect::<Vec<u32>>());
                 }
-                Script::Reply { a: l[0].clone(), n: l[1].clone(), d: l[2].clone(), rdlen, tc, wrong_id, rcode }
+                let stray = k.n().unwrap_or(0) != 0;
+                Script::Reply { a: l[0].clone(), n: l[1].clone(), d: l[2].clone(), rdlen, tc, wrong_id, rcode, stray }
             }
         };
         steps.push(Step { sleep_ms, client, port53: port == 53, tcp, query, script });
